@@ -87,14 +87,50 @@ def _encaps(c, ind):
     return s + ind + "</component_ref>\n"
 
 
+def parsed_comps(comps):
+    """top-level component order as the Parser leaves it: loadEncapsulation takes every parent component out of
+    the model and appends it again, so components without children keep their document order and the
+    encapsulation parents follow, in encapsulation order"""
+    return tuple(c for c in comps if not c[4]) + tuple(c for c in comps if c[4])
+
+
+def import_sids(m, group_imports=False):
+    """identity of the ImportSource object of every imported entity: one <import> element per imported entity,
+    or (group_imports) one per run of consecutive imported units / components with the same URL.
+    Returns ({units name: sid}, {component name: sid})."""
+    _, name, units, comps, errs = m
+    su, sc = {}, {}
+    n = 0
+    prev = None
+    for u in units:
+        if u[0] == "I":
+            if not (group_imports and prev == u[2]):
+                n += 1
+            su[u[1]] = n - 1
+            prev = u[2]
+        else:
+            prev = None
+    prev = None
+    for c in _flatten_comps(comps):
+        if c[2] is not None:
+            if not (group_imports and prev == c[2][0]):
+                n += 1
+            sc[c[1]] = n - 1
+            prev = c[2][0]
+        else:
+            prev = None
+    return su, sc
+
+
 def render_model(m, group_imports=False):
     """XML text of a model.  Units first (document order = list order), then every component of the
     encapsulation forest in pre-order, then the encapsulation.  One <import> element per imported entity
     (group_imports=True merges runs of consecutive imported units / components with the same URL into one
-    <import> element, i.e. one shared ImportSource object)."""
+    <import> element, i.e. one shared ImportSource object; see import_sids)."""
     _, name, units, comps, errs = m
     eu = {e[1] for e in errs if e[0] == "eu"}
     ec = {e[1] for e in errs if e[0] == "ec"}
+    su, sc = import_sids(m, group_imports)
     s = HEAD % name
     if any(e[0] == "eo" for e in errs):
         s += '  <bogus_element/>\n'
@@ -102,11 +138,11 @@ def render_model(m, group_imports=False):
     for u in units:
         if u[0] == "I":
             line = '    <units name="%s" units_ref="%s"/>\n' % (u[1], u[3])
-            if group_imports and prev == ("u", u[2]):
+            if prev is not None and prev == su[u[1]]:
                 s = s[:-len("  </import>\n")] + line + "  </import>\n"
             else:
                 s += '  <import xlink:href="%s">\n%s  </import>\n' % (u[2], line)
-            prev = ("u", u[2])
+            prev = su[u[1]]
         else:
             prev = None
             extra = ' foo="bar"' if u[1] in eu else ""
@@ -121,11 +157,11 @@ def render_model(m, group_imports=False):
     for c in _flatten_comps(comps):
         if c[2] is not None:
             line = '    <component name="%s" component_ref="%s"/>\n' % (c[1], c[2][1])
-            if group_imports and prev == ("c", c[2][0]):
+            if prev is not None and prev == sc[c[1]]:
                 s = s[:-len("  </import>\n")] + line + "  </import>\n"
             else:
                 s += '  <import xlink:href="%s">\n%s  </import>\n' % (c[2][0], line)
-            prev = ("c", c[2][0])
+            prev = sc[c[1]]
         else:
             prev = None
             extra = ' foo="bar"' if c[1] in ec else ""
@@ -169,27 +205,31 @@ def _tok(s):
     return s if s != "" else "~"
 
 
-def _units_text(u):
+def _units_text(u, su):
     if u[0] == "L":
         return "L %s %d%s" % (_tok(u[1]), len(u[2]), "".join(" " + _tok(r) for r in u[2]))
-    return "I %s %s %s" % (_tok(u[1]), _tok(u[2]), _tok(u[3]))
+    return "I %s %d %s %s" % (_tok(u[1]), su[u[1]], _tok(u[2]), _tok(u[3]))
 
 
-def _comp_text(c):
-    imp = "-" if c[2] is None else "i %s %s" % (_tok(c[2][0]), _tok(c[2][1]))
+def _comp_text(c, sc):
+    imp = "-" if c[2] is None else "i %d %s %s" % (sc[c[1]], _tok(c[2][0]), _tok(c[2][1]))
     return "C %s %s %d%s %d%s" % (_tok(c[1]), imp, len(c[3]), "".join(" " + _tok(x) for x in c[3]),
-                                  len(c[4]), "".join(" " + _comp_text(k) for k in c[4]))
+                                  len(c[4]), "".join(" " + _comp_text(k, sc) for k in c[4]))
 
 
-def abstract_text(doc):
-    """token form for the OCaml driver (names must not contain blanks; '~' stands for the empty string)"""
+def abstract_text(doc, group_imports=False):
+    """token form for the OCaml driver: the model *as the Parser builds it* from render(doc, group_imports)
+    (component order of parsed_comps, ImportSource identities of import_sids).  Names must not contain blanks;
+    '~' stands for the empty string."""
     if doc[0] == "X":
         return "X"
     if doc[0] == "H":
         return "M ~ 0 0 1 eo"
     _, name, units, comps, errs = doc
-    parts = ["M", _tok(name), str(len(units))] + [_units_text(u) for u in units]
-    parts += [str(len(comps))] + [_comp_text(c) for c in comps]
+    su, sc = import_sids(doc, group_imports)
+    comps = parsed_comps(comps)
+    parts = ["M", _tok(name), str(len(units))] + [_units_text(u, su) for u in units]
+    parts += [str(len(comps))] + [_comp_text(c, sc) for c in comps]
     parts += [str(len(errs))] + [("%s %s" % (e[0], _tok(e[1])) if e[0] != "eo" else "eo") for e in errs]
     return " ".join(parts)
 
@@ -222,7 +262,8 @@ def all_comps(m):
 # ----------------------------------------------------------------------------------------------- ground truth
 
 Truth = namedtuple("Truth", "resolvable reason file_revisit local_units_cycle entity_cycle hidden_import "
-                            "sibling_imports dangling_ref_used parse_errors twin_of_origin files_in_closure depth roots")
+                            "sibling_imports dangling_ref_used parse_errors twin_of_origin files_in_closure depth roots "
+                            "name_capture")
 
 
 def truth(files, origin=ORIGIN):
@@ -238,9 +279,11 @@ def truth(files, origin=ORIGIN):
                       visited): the property's exclusion when no entity depends on itself
     local_units_cycle the closure contains a cycle among local (non-import) units of one file
     entity_cycle      some entity depends on itself through at least one import
-    hidden_import     the closure reaches an import in a non-origin file only through a local units that is itself
-                      referenced by a local units, or used by a component, or through an encapsulated child
-                      (the places Importer::fetchUnits / fetchComponent do not descend into)
+    hidden_import     the closure contains a dependency edge in a non-origin file that Importer::fetchUnits /
+                      fetchComponent never examine (references of a local units that is not an import target; units
+                      used by an encapsulated descendant of an imported component)
+    name_capture      an imported units references (through local units of its file) a name that is also a units
+                      name of the importing model (flattening then links the copy to the wrong units)
     sibling_imports   some local units in the closure has two or more references that lead to imports
     dangling_ref_used a component's variable uses a local units that (transitively) references a missing units
     parse_errors      some model file in the closure carries parser errors
@@ -400,112 +443,110 @@ def truth(files, origin=ORIGIN):
         rc(origin, om, c, [], [])
     return Truth(ok, reason, st["revisit"], st["lcycle"], st["ecycle"], _hidden_import(files, origin),
                  st["sibling"], st["dangling"], st["perr"], st["twin"], tuple(sorted(st["files"])), st["depth"],
-                 tuple(roots))
+                 tuple(roots), _name_capture(files, origin))
 
 
 def _hidden_import(files, origin):
-    """True when the full dependency closure of the origin contains an imported units that the importer's
-    own traversal (fetchUnits / fetchComponent as written) never fetches: compares the set of import
-    sources (file, url) visited by a transcription of the code's traversal *shape* (ignoring failures)
-    with the set visited by the full closure."""
+    """True when the dependency closure of the origin's imports contains a dependency edge that the importer's
+    own traversal (fetchUnits / fetchComponent as written) never examines:
+      * the references of a local units that is not itself the target of an import (fetchUnits looks at the
+        children of an import target only, and only fetches those that are imports),
+      * the units used by the variables of an encapsulated descendant of an import target (fetchComponent looks at
+        unitsNamesUsed(sourceComponent) only),
+    in a non-origin file."""
     om = files[origin]
-    full, code = set(), set()
+    found = [False]
+    seen = set()
 
     def model_at(url):
         d = files.get(url)
         return d if is_model(d) else None
 
-    def full_u(f, m, u, seen):
-        k = ("u", f, u[1])
+    # mode "T": the entity is an import target (or a top-level import of the origin): its edges are examined
+    # mode "N": reached some other way: its edges are not examined by the importer
+    def vu(f, m, u, mode):
+        k = ("u", f, u[1], mode)
         if k in seen:
             return
         seen.add(k)
         if u[0] == "I":
-            full.add((f, u[2]))
             d = model_at(u[2])
             if d:
                 t = find_units(d, u[3])
                 if t:
-                    full_u(u[2], d, t, seen)
+                    vu(u[2], d, t, "T")
             return
         for r in u[2]:
-            cu = find_units(m, r) if r not in STANDARD_UNITS else None
+            if r in STANDARD_UNITS:
+                continue
+            if mode != "T" and f != origin:
+                found[0] = True
+            cu = find_units(m, r)
             if cu:
-                full_u(f, m, cu, seen)
+                # an imported child is fetched (its import edge is examined) when its parent was examined
+                vu(f, m, cu, "T" if (cu[0] == "I" and mode == "T") else "N")
 
-    def full_c(f, m, c, seen):
-        k = ("c", f, c[1])
+    def vc(f, m, c, mode):
+        k = ("c", f, c[1], mode)
         if k in seen:
             return
         seen.add(k)
         if c[2] is not None:
-            full.add((f, c[2][0]))
             d = model_at(c[2][0])
             if d:
                 t = find_comp(d[3], c[2][1])
                 if t:
-                    full_c(c[2][0], d, t, seen)
+                    vc(c[2][0], d, t, "T")
         for un in c[3]:
-            cu = find_units(m, un) if un not in STANDARD_UNITS else None
+            if un in STANDARD_UNITS:
+                continue
+            if mode != "T" and f != origin:
+                found[0] = True
+            cu = find_units(m, un)
             if cu:
-                full_u(f, m, cu, seen)
+                vu(f, m, cu, "T" if (cu[0] == "I" and mode == "T") else "N")
         for kk in c[4]:
-            full_c(f, m, kk, seen)
+            # the walk reaches every descendant and fetches the imported ones; a local descendant's units are skipped
+            vc(f, m, kk, "T" if kk[2] is not None else "N")
 
-    def code_u(f, m, u, seen):
-        if u[0] != "I":
-            return
-        k = ("u", f, u[1])
-        if k in seen:
-            return
-        seen = seen | {k}
-        code.add((f, u[2]))
-        d = model_at(u[2])
-        if not d:
-            return
-        t = find_units(d, u[3])
-        if not t:
-            return
-        code_u(u[2], d, t, seen)
-        if t[0] == "L":
-            for r in t[2]:
-                cu = find_units(d, r) if r not in STANDARD_UNITS else None
-                if cu:
-                    code_u(u[2], d, cu, seen)
-
-    def code_c(f, m, c, seen):
-        if c[2] is None:
-            for kk in c[4]:
-                code_c(f, m, kk, seen)
-            return
-        k = ("c", f, c[1])
-        if k in seen:
-            return
-        seen = seen | {k}
-        code.add((f, c[2][0]))
-        d = model_at(c[2][0])
-        if not d:
-            return
-        t = find_comp(d[3], c[2][1])
-        if not t:
-            return
-        code_c(c[2][0], d, t, seen)
-        for kk in t[4]:
-            code_c(c[2][0], d, kk, seen)
-        for un in t[3]:
-            cu = find_units(d, un) if un not in STANDARD_UNITS else None
-            if cu:
-                code_u(c[2][0], d, cu, seen)
-
-    s1, s2 = set(), set()
     for u in om[2]:
-        full_u(origin, om, u, s1)
-        code_u(origin, om, u, frozenset())
-    for c in om[3]:
-        full_c(origin, om, c, s2)
+        if u[0] == "I":
+            vu(origin, om, u, "T")
     for c in all_comps(om):
-        code_c(origin, om, c, frozenset())
-    return bool({x for x in full if x[0] != origin} - code)
+        if c[2] is not None:
+            vc(origin, om, C(c[1], c[2]), "T")
+    return found[0]
+
+
+def _name_capture(files, origin):
+    """flattening instantiates an imported units together with the local units it references, under their own
+    names: True when such a referenced name is already taken in the importing model (or is the importing
+    name itself while the target has another name) -- the copy then refers to the wrong units"""
+    for f, d in files.items():
+        if not is_model(d):
+            continue
+        names = {u[1] for u in d[2]}
+        for u in d[2]:
+            if u[0] != "I":
+                continue
+            td = files.get(u[2])
+            if not is_model(td):
+                continue
+            t = find_units(td, u[3])
+            deps = set()
+
+            def walk(x):
+                if x is None or x[0] != "L":
+                    return
+                for r in x[2]:
+                    if r in STANDARD_UNITS or r in deps:
+                        continue
+                    deps.add(r)
+                    walk(find_units(td, r))
+            walk(t)
+            if deps & names:
+                return True
+    return False
 
 
 # ----------------------------------------------------------------------------------------------- enumeration
